@@ -25,9 +25,9 @@ const VB: &str = "BPAFMC_B";
 const LOOKALIKES: [&str; 4] = ["BPAFMC_", "BPAFMC_AA", "bpafmc_a", "XBPAFMC_A"];
 
 fn states() -> Vec<Option<Tok>> {
-    // unset, empty, valid, invalid, non-UTF-8, and a number that converts but fails the guard of
-    // guarded items
-    vec![None, Some(Tok::s("")), Some(Tok::s("7")), Some(Tok::s("x")), Some(Tok(vec![0xff])), Some(Tok::s("11"))]
+    // unset, empty, valid, invalid, non-UTF-8, a number that converts but fails the guard of
+    // guarded items, and a value with a blank line in it (shown in the help)
+    vec![None, Some(Tok::s("")), Some(Tok::s("7")), Some(Tok::s("x")), Some(Tok(vec![0xff])), Some(Tok::s("11")), Some(Tok::s("a\n\nb"))]
 }
 
 fn set_env(vars: &[String], st: &[Option<Tok>]) -> Env {
@@ -112,6 +112,10 @@ fn check_help(u: &Unit, unit: &Value, p: &bpaf::OptionParser<Val>, env: &Env, ct
                         problem = Some(format!("help lacks {:?}", want));
                     }
                 }
+            }
+            // whatever the variable holds, the rows after it are still there
+            if !text.contains("-h, --help") {
+                problem = Some("help lost the rows after the environment value".into());
             }
             for l in LOOKALIKES {
                 if text.contains(&format!("env:{}", l)) && !text.contains(&format!("env:{}_", l)) && l != "BPAFMC_" {
@@ -223,6 +227,11 @@ impl Check for C18 {
             out.push(Unit { level: Level { named: vec![it.clone()], tail: Tail::None, version: None, usage_fallback: false }, len: tier.pick(4, 5), vars: vars.clone() });
             out.push(Unit { level: Level { named: vec![neutral.clone(), it.clone()], tail: Tail::Pos(vec![PosItem { kind: PosKind::Opt, strict: Strict::Any }]), version: None, usage_fallback: false }, len: tier.pick(3, 4), vars: vars.clone() });
         }
+        // fallback_to_usage: a level whose items all come from the environment succeeds on an
+        // empty line; the usage is printed only when the empty line fails
+        for (it, vars) in items(seed).into_iter().step_by(2) {
+            out.push(Unit { level: Level { named: vec![it.clone()], tail: Tail::None, version: None, usage_fallback: true }, len: tier.pick(2, 3), vars: vars.clone() });
+        }
         // two env-backed items sharing nothing
         for k1 in [Kind::Switch, Kind::ArgReq, Kind::ArgMany] {
             for k2 in [Kind::ReqFlag, Kind::ArgOpt, Kind::ArgFallback] {
@@ -244,10 +253,10 @@ impl Check for C18 {
         run_states(&u, unit, ctx, Some((&env, &argv, case["help"].as_bool() == Some(true))));
     }
     fn rule(&self) -> String {
-        "definitions = every item kind (switch, flag, req_flag, count, argument required/optional/many/some/fallback/last; OsString, u32 and guarded u32) backed by {names + one variable, names + two variables, variable only}, alone and beside a neutral switch and an optional positional, plus pairs of env-backed items; configurations = every state {unset, empty, valid, invalid, non-UTF-8, number rejected by the guard of guarded items} of every declared variable; inputs = every vector of the token tree; reference scanner with the extra rule 'no occurrence on the line -> one synthetic occurrence from the first set variable (flags: present iff set)'; plus: undeclared look-alike variables set/unset give identical outcomes, --help shows [env:NAME ...] state of declared variables only; state = (definition, environment, vector)".into()
+        "definitions = every item kind (switch, flag, req_flag, count, argument required/optional/many/some/fallback/last; OsString, u32 and guarded u32) backed by {names + one variable, names + two variables, variable only}, alone and beside a neutral switch and an optional positional, plus pairs of env-backed items, plus the single items on levels with fallback_to_usage; configurations = every state {unset, empty, valid, invalid, non-UTF-8, number rejected by the guard of guarded items, value with a blank line} of every declared variable; inputs = every vector of the token tree; reference scanner with the extra rule 'no occurrence on the line -> one synthetic occurrence from the first set variable (flags: present iff set)'; plus: undeclared look-alike variables set/unset give identical outcomes, --help shows [env:NAME ...] state of declared variables only; state = (definition, environment, vector)".into()
     }
     fn bounds(&self, tier: Tier) -> Value {
-        json!({"vector_length": tier.pick("4 (single item), 3 (with neighbours)", "5 / 4"), "variables": "1..2 declared, 6 states each, 4 undeclared look-alikes"})
+        json!({"vector_length": tier.pick("4 (single item), 3 (with neighbours)", "5 / 4"), "variables": "1..2 declared, 7 states each, 4 undeclared look-alikes"})
     }
     fn assumptions(&self) -> Vec<String> {
         vec!["workers are single-threaded processes, so set_var/remove_var between cases is sound".into()]
